@@ -5,6 +5,7 @@ import (
 	"errors"
 	"fmt"
 	"runtime"
+	"strings"
 	"sync"
 
 	"github.com/jig/lisp"
@@ -29,8 +30,25 @@ func init() {
 		case errors.Is(err, errBoom):
 			return "boom"
 		}
+		if _, ok := userErrMessage(err); ok {
+			return "user"
+		}
 		return ""
 	}
+}
+
+// userErrMessage: an error object made by the program with (go-error "user:...") -- found anywhere in the
+// Unwrap chain -- and its message.
+func userErrMessage(err error) (string, bool) {
+	for e := err; e != nil; e = errors.Unwrap(e) {
+		if _, isLisp := e.(interface{ ErrorValue() types.MalType }); isLisp {
+			continue
+		}
+		if m := e.Error(); strings.HasPrefix(m, "user:") {
+			return m, true
+		}
+	}
+	return "", false
 }
 
 // Probe collects what the harness builtins observe during one run.
@@ -131,11 +149,20 @@ func classifyErr(err error) (string, Node) {
 	if ev, ok := err.(interface{ ErrorValue() types.MalType }); ok {
 		v := ev.ErrorValue()
 		if ge, isErr := v.(error); isErr {
-			return "err", Node{T: "err", S: errClass(ge)}
+			return "err", errNode(ge)
 		}
 		return "thr", FromMal(v)
 	}
-	return "err", Node{T: "err", S: errClass(err)}
+	return "err", errNode(err)
+}
+
+// errNode abstracts a Go error: its class, and for a program-made error its message
+func errNode(err error) Node {
+	n := Node{T: "err", S: errClass(err)}
+	if m, ok := userErrMessage(err); ok {
+		n.Xs = []Node{{T: "str", S: m}}
+	}
+	return n
 }
 
 // evalForms evaluates the top-level forms in order, stopping at the first error.
